@@ -38,11 +38,12 @@ SPEC = [
         "classes": ["_ArrayMemPagesManager"],
         "methods": ["from_bb_input", "should_release_curr_page", "release_curr_page_and_update_addr"],
         "dataclass": True}),
+    ("bblean/fingerprints.py", {"functions": ["pack_fingerprints"]}),
     ("bblean/bitbirch.py", {
         "classes": ["_BFSubcluster"],
-        "methods": ["n_samples", "linear_sum", "replace_n_samples_and_linear_sum", "add_to_n_samples_and_linear_sum",
-                    "update", "merge_subcluster"],
-        "slots": True}),
+        "methods": ["__init__", "n_samples", "linear_sum", "replace_n_samples_and_linear_sum",
+                    "add_to_n_samples_and_linear_sum", "update", "merge_subcluster"],
+        "slots": True, "partial_init": True}),
     ("bblean/bitbirch.py", {
         "classes": ["BitBirch"],
         "methods": ["__init__", "tolerance", "merge_criterion", "set_merge"],
@@ -232,6 +233,9 @@ class Translator:
         if isinstance(e, ast.Subscript) and isinstance(e.slice, ast.Slice) and e.slice.lower is None and e.slice.step is None \
                 and e.slice.upper is not None and src_of(e.slice.upper) == "-1":
             return f"(PV.sliceInit {self.expr(e.value, cx)})"
+        if isinstance(e, ast.Subscript) and not isinstance(e.slice, ast.Slice) and src_of(e.slice) == "-1" \
+                and not (root_name(e) in cx["opaque"]):
+            return f"(PV.indexLast {self.expr(e.value, cx)})"
         if isinstance(e, ast.Subscript):
             t = flat(e)
             r = root_name(e)
@@ -309,6 +313,15 @@ class Translator:
             return f"(PV.itemLast {self.expr(f.value, cx)})"
         if isinstance(f, ast.Name) and f.id == "max" and len(e.args) == 2 and not e.keywords:
             return f"(PV.max2 {self.expr(e.args[0], cx)} {self.expr(e.args[1], cx)})"
+        if isinstance(f, ast.Name) and f.id == "len" and len(e.args) == 1 and not e.keywords:
+            return f"(PV.len {self.expr(e.args[0], cx)})"
+        if isinstance(f, ast.Name) and f.id == "list" and len(e.args) == 1 and not e.keywords:
+            return f"(PV.toList {self.expr(e.args[0], cx)})"
+        if t in ("np.empty", "np.zeros") and len(e.args) == 1 and [k.arg for k in e.keywords] == ["dtype"]:
+            shape = e.args[0]
+            if isinstance(shape, ast.Tuple) and len(shape.elts) == 1:
+                shape = shape.elts[0]
+            return f"(PV.npZeros {self.expr(shape, cx)} {self.width(e.keywords[0].value)})"
         if isinstance(f, ast.Name) and f.id == "int" and len(e.args) == 1 and not e.keywords:
             return f"(PV.toInt {self.expr(e.args[0], cx)})"
         if isinstance(f, ast.Name) and f.id == "isinstance" and len(e.args) == 2:
@@ -480,6 +493,17 @@ class Translator:
                 lean = "self_" + attr
                 cx2 = dict(cx, selfattrs=dict(cx["selfattrs"], **{attr: lean}))
                 return pad + f"let {lean} := {newv}\n" + self.stmts(rest, cx2, kind, end, ind)
+            if isinstance(tgt, ast.Subscript) and isinstance(tgt.value, ast.Name) and tgt.value.id in cx["locals"] \
+                    and isinstance(s, ast.Assign):
+                nm = ident(tgt.value.id)
+                is_init_ = isinstance(tgt.slice, ast.Slice) and tgt.slice.lower is None and tgt.slice.step is None \
+                    and tgt.slice.upper is not None and src_of(tgt.slice.upper) == "-1"
+                is_last_ = not isinstance(tgt.slice, ast.Slice) and src_of(tgt.slice) == "-1"
+                if not (is_init_ or is_last_):
+                    raise Unsupported(f"subscript assignment {src_of(s)} (line {s.lineno})")
+                op_ = "setInit" if is_init_ else "setLast"
+                return pad + f"let {nm} := (PV.{op_} {nm} {self.expr(s.value, cx)})\n" \
+                    + self.guarded(pad, nm, cx, self.stmts(rest, cx, kind, end, ind), ind)
             if isinstance(tgt, ast.Name):
                 name = ident(tgt.id)
                 cx2 = dict(cx, locals=cx["locals"] | {tgt.id})
